@@ -1218,3 +1218,130 @@ func addrEscapes(x *ssa.FieldAddr, depth int) []ssa.Instruction {
 	}
 	return out
 }
+
+// ---------------------------------------------------------------------------
+// L5b: a slot that request code dereferences is never left empty
+
+func init() {
+	registerRule("L5b", "the open-segment slot is never left empty: every writer path that empties a slot which request code dereferences refills it before it returns (also on error paths), because requests assert its type without a nil test", ruleL5b)
+}
+
+func ruleL5b(c *Ctx) *RuleResult {
+	r := &RuleResult{Floor: 2, FloorWhat: "slot dereferences in request code and slot-emptying writer functions"}
+	slots, _ := c.slotFields()
+	ro := c.roles()
+	rset := c.reachRole(ro.R)
+	// slots that request code dereferences without a nil test (single-value type assertion / method call on the load)
+	deref := map[*types.Var]string{}
+	for fn := range rset {
+		if !InRootPkg(fn) || fn.Blocks == nil {
+			continue
+		}
+		allInstrs(fn, func(in ssa.Instruction) {
+			if ta, ok := in.(*ssa.TypeAssert); ok && !ta.CommaOk {
+				if f, _ := loadedField(ta.X); f != nil && slots[f] {
+					if !nonNilFact(factsAt(in.Block()), ta.X) {
+						deref[f] = c.Pos(ta.Pos()) + " in " + FuncName(fn)
+					}
+				}
+			}
+		})
+	}
+	n := len(deref)
+	if n == 0 {
+		r.Notes = append(r.Notes, "request code dereferences no slot without a nil test")
+	}
+	wset := c.reachRole(ro.W)
+	for f, where := range deref {
+		for _, fn := range c.Funcs {
+			if !wset[fn] {
+				continue
+			}
+			var nilStores []*ssa.Store
+			for _, st := range storesToField(c, fn, f) {
+				if k, ok := st.Val.(*ssa.Const); ok && k.IsNil() {
+					nilStores = append(nilStores, st)
+				}
+			}
+			if len(nilStores) == 0 {
+				continue
+			}
+			n++
+			refill := func(x ssa.Instruction) bool {
+				if st, ok := x.(*ssa.Store); ok {
+					if ff, _ := fieldOfAddr(st.Addr); ff == f {
+						if k, isC := st.Val.(*ssa.Const); !isC || !k.IsNil() {
+							return true
+						}
+					}
+				}
+				return false
+			}
+			seenKey := map[string]bool{}
+			allInstrs(fn, func(in ssa.Instruction) {
+				ret, ok := in.(*ssa.Return)
+				if !ok {
+					return
+				}
+				for _, ns := range nilStores {
+					if !instrReaches(ns, ret) {
+						continue
+					}
+					if !pathAvoidingRaw(fn, ns, refill, func(x ssa.Instruction) bool { return x == ret }) {
+						continue
+					}
+					cause := "success return"
+					if !isSuccessReturn(ret) {
+						cause = "error return"
+						res := fn.Signature.Results()
+						for i := 0; i < res.Len(); i++ {
+							if types.Identical(res.At(i).Type(), types.Universe.Lookup("error").Type()) {
+								cause = "error of " + errorOrigin(retVal(ret, i), 0)
+							}
+						}
+					}
+					key := fmt.Sprintf("%s|%s left empty|%s", FuncName(fn), c.fieldName(f), cause)
+					if seenKey[key] {
+						continue
+					}
+					seenKey[key] = true
+					r.fail(key, c.Pos(posOf(ret)), FuncName(fn), "every path that empties "+c.fieldName(f)+" refills it before returning",
+						"this return leaves the slot nil; the next playlist request asserts its type without a nil test ("+where+") and panics inside Handle")
+				}
+			})
+			if len(seenKey) == 0 {
+				r.ok(FuncName(fn)+"|"+c.fieldName(f)+" refilled", c.Pos(fn.Pos()), FuncName(fn), "every path that empties "+c.fieldName(f)+" refills it before returning", "no return reachable with the slot empty")
+			}
+		}
+	}
+	r.Instances = n
+	return r
+}
+
+// errorOrigin names the call an error value comes from.
+func errorOrigin(v ssa.Value, depth int) string {
+	if depth > 4 {
+		return "?"
+	}
+	switch x := v.(type) {
+	case *ssa.Call:
+		if f := x.Call.StaticCallee(); f != nil {
+			return FuncName(f)
+		}
+		if x.Call.IsInvoke() {
+			return x.Call.Method.Name()
+		}
+	case *ssa.Extract:
+		return errorOrigin(x.Tuple, depth+1)
+	case *ssa.Phi:
+		var parts []string
+		for _, e := range x.Edges {
+			if k, ok := e.(*ssa.Const); ok && k.IsNil() {
+				continue
+			}
+			parts = append(parts, errorOrigin(e, depth+1))
+		}
+		return strings.Join(parts, "/")
+	}
+	return v.Name()
+}
